@@ -1,0 +1,28 @@
+//go:build verif
+
+package gocvss20
+
+// Verification hooks: compiled only with the build tag "verif".
+// They add read/construct access to the packed representation and to a few
+// unexported helpers; no existing code is changed.
+
+// VerifBytes returns the packed representation of c.
+func VerifBytes(c *CVSS20) [4]uint8 { return [4]uint8{c.u0, c.u1, c.u2, c.u3} }
+
+// VerifFromBytes builds an object from a packed representation (any bytes).
+func VerifFromBytes(b [4]uint8) *CVSS20 { return &CVSS20{u0: b[0], u1: b[1], u2: b[2], u3: b[3]} }
+
+// VerifLenVec exposes lenVec, the pre-computed length used by Vector.
+func VerifLenVec(c *CVSS20) int { return lenVec(c) }
+
+// VerifRound exposes roundTo1Decimal.
+func VerifRound(x float64) float64 { return roundTo1Decimal(x) }
+
+// VerifSplit exposes split on a caller-supplied destination slice.
+func VerifSplit(dst []string, vector string) int { return split(dst, vector) }
+
+// VerifPoolPut puts a caller-supplied slice into the split pool.
+func VerifPoolPut(p []string) { splitPool.Put(p) }
+
+// VerifPoolGet takes a slice out of the split pool.
+func VerifPoolGet() []string { return splitPool.Get().([]string) }
